@@ -1,5 +1,5 @@
 (* C17 — IP wrapper frames by length; TCP transport returns whole APDUs for any chunking. *)
-From Dlms Require Import Base WrapperModel WrapperSpec WrapperProofs WrapperStream.
+From Dlms Require Import Base WrapperModel WrapperSpec WrapperProofs WrapperStream WrapperSound.
 
 (* the header is four big-endian 16-bit fields: version, source port, destination port, length *)
 Theorem C17_header_layout : forall src dst ln ver, src < 65536 -> dst < 65536 -> ln < 65536 -> ver < 65536 ->
@@ -99,8 +99,26 @@ Example C17_session_nonvacuous :
   = ([Ok [196; 1; 0]; Ok [99]], (([7], []), [std_request 16 1 [192; 1]; std_request 16 1 [98; 0]])).
 Proof. exact tcp_session_nonvacuous. Qed.
 
+(* soundness, no hypothesis on what the peer sent: a datagram the decoder accepts is the standard header of the fields it
+   returns followed by exactly the payload it returns, and the length field equals the payload length *)
+Theorem C17_wrapper_decode_sound : forall b payload src dst ln ver,
+  bytes_ok b -> wpdu_from_bytes b = Ok (payload, (src, dst, ln, ver)) ->
+  b = std_header ver src dst ln ++ payload /\ ln = len payload /\ src < 65536 /\ dst < 65536 /\ ln < 65536 /\ ver < 65536.
+Proof. exact wpdu_from_bytes_sound. Qed.
+
+(* ... and whatever recv() returns, for ANY byte stream and ANY schedule of read sizes (also reads of zero bytes, also an
+   exhausted schedule), is a whole APDU exactly as the stream announces it: the stream is a standard header whose length
+   field is the length of the payload returned, then exactly that payload, then exactly what is left unread *)
+Theorem C17_recv_sound : forall stream sched p rest sched',
+  bytes_ok stream -> tcp_recv (stream, sched) = (Ok p, (rest, sched')) ->
+  exists ver src dst, stream = std_header ver src dst (len p) ++ p ++ rest /\
+                      len p < 65536 /\ src < 65536 /\ dst < 65536 /\ ver < 65536.
+Proof. exact tcp_recv_sound. Qed.
+
 Print Assumptions C17_recv_any_schedule.
 Print Assumptions C17_wrapper_roundtrip.
 Print Assumptions C17_recv_stream_any_schedule.
 Print Assumptions C17_recv_stream_eof.
 Print Assumptions C17_session_any_schedule.
+Print Assumptions C17_recv_sound.
+Print Assumptions C17_wrapper_decode_sound.
